@@ -10,6 +10,10 @@ CLAIMED = {
             "Theorems C16_response/C16_lines/C16_no_callback/C16_noninterference hold for every challenge, password and auxiliary-address set of the Gallina model of secureLoginResponse/sendHandshake; the model is tied to /repo by the regenerated salt/SID constants and by running real slave sessions against the extracted model.",
             "MD5 is re-implemented in Gallina (RFC vectors as Examples; compared with crypto/md5 on every run); fmt %08d and bufio modelled; the theorem speaks about the model, the correspondence about the code.",
             "DESIGN.md section 6 C16"),
+    "C20": ("Coq proof over an exact integer model of the binary64 computation (format, range, value bound, courses, optional fields) + correspondence on float grids",
+            "Theorems C20_format/C20_value/C20_course/C20_fields hold for every finite binary64 latitude/longitude in range (given exactly as m/2^k), all 361 courses and all optional-field combinations of the model of decToMinDec/NewCourse/PosReport.Message (as repaired by two fix: commits); the model is run against the real functions on dense grids and values adjacent to whole degrees and minutes.",
+            "IEEE-754 round-to-nearest-even of the single multiplication and math.Round are modelled exactly in N arithmetic (validated bit-for-bit by correspondence); fmt %0Nd modelled; time.Format, fmt %f and Message.SetBody are inputs of the model. The value bound includes the 2^-53 relative rounding error of the multiplication.",
+            "DESIGN.md section 6 C20"),
 }
 
 NOT_YET = {}
